@@ -50,6 +50,11 @@ CLAIMED = {
     note="Trusted: Coq kernel; stdlib real axioms; libm sin/cos leaves supplied by the harness; the 1e-8 weight threshold is part of the statement (weights are required to be 0 or > 1e-8); evenness of real models in their SLDs is assumed, not proved; harness/c06.py.",
     technique="Coq proof (vector algebra + case analysis over R) + SLD-probe correspondence",
     design="DESIGN.md §3 C06"),
+ "C07": dict(
+    text="Coq theorems for every parameter count of P and S, with or without volfraction in P, beta mode, R_eff mode and magnetic block: the index arithmetic of ProductKernel picks exactly the documented pieces of the combined value vector (C07_layout_slices, any carrier), and the final combination is scale*(volfraction/<V_shell>)*<F^2>*S + background, its beta variant, and the variant without the explicit volfraction factor when P owns volfraction (reals). Tied to the code by checking the combined parameter table against the documented order and by evaluating P@S through the public API against the recombination of call_Fq(P) and call_kernel(S) - S receiving P's R_eff for the selected mode (or the user's value, with its dispersity, for mode 0) and volfraction*V_form/V_shell - in the Coq binary64 model; the reported intermediates (P(Q), S(Q), volume, volume ratio, effective radius) are compared with the values used.",
+    note="Trusted: Coq kernel; stdlib real axioms for the formula theorems; harness/c07.py (recombination oracle). beta in 2-D is refused by the implementation (NotImplementedError) and counted, not compared.",
+    technique="Coq proof (list-slice arithmetic for all sizes, field identities) + recombination correspondence",
+    design="DESIGN.md §3 C07"),
 }
 NA_REASON = "check not built yet in this session (planned, see DESIGN.md §7)"
 
